@@ -113,9 +113,17 @@ class G:
 
     def pipeline(self, n, start="t"):
         r = self.r
-        cols = {"t": ["k", "a", "b"], "u": ["k", "a", "c"]}
+        cols = {"t": ["k", "a", "b"], "u": ["k", "a", "c"], "l": ["k", "a", "b"]}
         fr = [(c, "") for c in cols[start]]
-        steps = [from_(start)]
+        if start == "l":
+            # a relation literal (aliased l) instead of a table: NULLs, duplicates, negative values
+            vals = [0, 1, 2, 3, -2, None]
+            rows = [[r.choice([1, 2, 3, 4]), r.choice(vals), r.choice(vals)] for _ in range(r.randint(1, 4))]
+            if r.random() < 0.3:
+                rows.append(list(rows[0]))
+            steps = [fromlit(cols["l"], rows, alias="l")]
+        else:
+            steps = [from_(start)]
         joined = False
         sorted_unique = False
         for _ in range(n):
@@ -195,7 +203,7 @@ class G:
                     fr = [(n0, "") for (n0, q) in by] + newrest
                 sorted_unique = False
             elif x < 0.78 + self.p_group + self.p_join and not joined and all(q == "" for _, q in fr):
-                other = "u" if start == "t" else "t"
+                other = "u" if start in ("t", "l") else "t"
                 side = r.choice(["inner", "inner", "left", "left", "right", "full"])
                 shared = [n0 for (n0, _) in fr if n0 in cols[other]]
                 if shared and r.random() < 0.6:
@@ -228,7 +236,7 @@ class G:
                 fr = newfr
                 joined = True
             elif x < 0.78 + self.p_group + self.p_join + self.p_append and all(q == "" for _, q in fr):
-                other = "u" if start == "t" else "t"
+                other = "u" if start in ("t", "l") else "t"
                 if r.random() < self.append_bare and len(fr) == 3:
                     steps.append(append([from_(other)]))
                 else:
@@ -255,4 +263,5 @@ class G:
 
     def program(self, i, n=None, start=None):
         n = n if n is not None else self.r.randint(3, 8)
-        return {"id": f"r{i}", "decl": True, "steps": self.pipeline(n, start or ("t" if self.r.random() < 0.85 else "u"))}
+        x = self.r.random()
+        return {"id": f"r{i}", "decl": True, "steps": self.pipeline(n, start or ("t" if x < 0.75 else "u" if x < 0.88 else "l"))}
